@@ -92,6 +92,13 @@ theorem C04_ok_or_err (a : Ast) (p : Plans) (hp : p.Ok = true) (hfin : p.finite 
   | abort => rw [hr] at hbad; cases hbad
   | outOfFuel => exact absurd hr hno
 
+/-- specification level: supported subset + finite types (the one condition `Supported` leaves to rustc) -/
+theorem C04_ok_or_err_supported (a : Ast) (m : Module) (hs : Supported a = true) (hg : generateModule a = .ok m)
+    (hfin : m.plans.finite = true) (name : String) (hn : declared a name = true) (c : Cur) :
+    ∃ F, ((∃ v c', ∀ f, F ≤ f → evalImpl a m.plans f name c = .ok v c') ∨
+          (∃ e l, ∀ f, F ≤ f → evalImpl a m.plans f name c = .err e l)) :=
+  C04_ok_or_err a m.plans (supported_plans hs hg).1 hfin name ((plansFor_of_supported hs hg).declared_has_impl name hn) c
+
 /-- non-vacuity: a recursive list type (`struct node { unsigned v; node *next; }`) is finite — the recursion is behind a `Box` -/
 example : (Plans.mk [⟨"node", false, .struct [.plain "v" (.one (.prim .u32)), .optional "next" "node"]⟩] []).finite = true := by decide
 
